@@ -5,7 +5,7 @@ ID = "C12"
 BIN = "c12"
 PROOF_MODULES = ["Compute.Props.C12"]
 REQUIRED_THEOREMS = ["Cv.C12.broadcast_total", "Cv.C12.broadcast_shape", "Cv.C12.broadcast_entry"]
-RULE = ("special-value stratum (every classifier leaf x operator x operand kind with NaN / inf / signed zeros / subnormals in the data and as the 1x1 operand); size-boundary shapes (7..9, 15..17, 31..33, 40, products around 1024) against row / column / scalar partners in both orders; every shape pair with rows, cols in 1..6 (1296 pairs): Matrix∘Matrix with 4 of the 16 (operator, ownership form) combinations per pair in the quick tier (each operator once, forms rotating) and all 16 in the thorough tier, Matrix∘Vector and Vector∘Matrix with every operator for every eligible pair (ownership form rotating in quick, all four in thorough), "
+RULE = ("value-pattern stratum (all-zero / all-negative-zero / constant / all-ones / tiny-distinct / within-epsilon-of-one / round-off-residual / tiny-constant operands on the left, right or both sides x every shape pair with rows, cols in 1..4, compatible and incompatible x operators x operand kinds); special-value stratum (every classifier leaf x operator x operand kind with NaN / inf / signed zeros / subnormals in the data and as the 1x1 operand); size-boundary shapes (7..9, 15..17, 31..33, 40, products around 1024) against row / column / scalar partners in both orders; every shape pair with rows, cols in 1..6 (1296 pairs): Matrix∘Matrix with 4 of the 16 (operator, ownership form) combinations per pair in the quick tier (each operator once, forms rotating) and all 16 in the thorough tier, Matrix∘Vector and Vector∘Matrix with every operator for every eligible pair (ownership form rotating in quick, all four in thorough), "
         "with distinct non-commuting entries, plus random shapes up to 40x40; non-trivial = distinct (op, kind, shapes) class")
 EXHAUSTIVE = {"quick": False, "thorough": False}
 NOT_PROVED = [
@@ -108,6 +108,44 @@ def gen(rng, tier):
                     if r1 == 1:
                         lines.append(mk(op, "vm", own, 1, c1, r2, c2, d1, d2)); nspec += 1
     cover["special_value_lines"] = nspec
+    # value-pattern stratum (round-10 seeds C12v, C12w): shortcuts keyed on the VALUES of an operand - an all-zero operand of a product,
+    # a row whose entries are "all the same" up to an absolute tolerance, a constant operand - are invisible with distinct ordinary
+    # entries. Every shape pair with rows, cols in 1..4 (compatible and incompatible) x 8 value patterns on the left / right / both
+    # operands x operators, through Matrix∘Matrix and, where eligible, Matrix∘Vector and Vector∘Matrix.
+    EPS = 2.0 ** -52
+    PATS = ["zeros", "negzeros", "const", "ones", "tiny", "near1", "resid", "tinyconst"]
+    def pdata(pat, n, k):
+        if pat == "zeros": return [0.0] * n
+        if pat == "negzeros": return [-0.0] * n
+        if pat == "const": return [2.5 + k] * n
+        if pat == "ones": return [1.0] * n
+        if pat == "tiny": return [(i + 1 + 3 * k) * 1e-20 for i in range(n)]            # distinct, all within f64::EPSILON of each other
+        if pat == "near1": return [1.0 + ((i + k) % 2) * EPS for i in range(n)]          # 1, 1+eps, 1, … (not uniform, within eps)
+        if pat == "resid": return [(-1) ** i * (i + 1 + k) * 1e-17 for i in range(n)]     # round-off sized residuals of both signs
+        return [3e-300 * (1 + k)] * n                                                      # tinyconst
+    npat = 0
+    pidx = 0
+    for r1 in range(1, 5):
+        for c1 in range(1, 5):
+            for r2 in range(1, 5):
+                for c2 in range(1, 5):
+                    for pi, pat in enumerate(PATS):
+                        pidx += 1
+                        sides = [0, 1, 2] if tier == "thorough" else [(pidx + pi) % 3]
+                        ops = OPS if tier == "thorough" else [OPS[(pidx // 3 + pi) % 4]]
+                        if tier == "quick" and pat in ("zeros", "negzeros") and "mul" not in ops and pidx % 2 == 0:
+                            ops = ops + ["mul"]
+                        for side in sides:
+                            d1 = pdata(pat, r1 * c1, 0) if side in (0, 2) else data(rng, r1 * c1, 1.0)
+                            d2 = pdata(pat, r2 * c2, 1) if side in (1, 2) else data(rng, r2 * c2, 100.0)
+                            for op in ops:
+                                own = (pidx + len(op) + side) % 4
+                                lines.append(mk(op, "mm", own, r1, c1, r2, c2, d1, d2)); npat += 1
+                                if r2 == 1:
+                                    lines.append(mk(op, "mv", own, r1, c1, 1, c2, d1, d2)); npat += 1
+                                if r1 == 1:
+                                    lines.append(mk(op, "vm", own, 1, c1, r2, c2, d1, d2)); npat += 1
+    cover["value_pattern_lines"] = npat
     nrand = 300 if tier == "quick" else 6000
     for _ in range(nrand):
         r, c = rng.randint(1, 40), rng.randint(1, 40)
